@@ -556,4 +556,125 @@ theorem step_push (s : IState) (op : Nat) (n : Fin 32) (hcode : s.code[s.pc]? = 
   rw [pushI_eq (n.val + 1) (by omega) (by have := n.isLt; omega) (adv s) hwf hst]
   rfl
 
+
+/-! ## JUMP, JUMPI -/
+
+theorem pop1_ok (s : IState) (l : List Nat) (a : Nat) (h : s.stack = l ++ [a]) :
+    pop1 s = .ok a { s with stack := l } := by
+  unfold pop1
+  have h1 : popN 1 s = .ok [a] { s with stack := l } := by
+    unfold popN Stack.popMacro
+    have hl : ¬ s.stack.length < 1 := by rw [h]; simp
+    rw [if_neg hl, h, popNUnsafe_one]
+  rw [bind_ok _ _ _ _ _ h1]
+  rfl
+
+theorem pop1_underflow (s : IState) (h : s.stack.length < 1) : pop1 s = .halt .StackUnderflow [] s := by
+  unfold pop1
+  have h1 : popN 1 s = .halt .StackUnderflow [] s := by
+    unfold popN Stack.popMacro; rw [if_pos h]; rfl
+  rw [bind_halt _ _ _ _ _ _ h1]
+
+theorem pop2_ok (s : IState) (l : List Nat) (a b : Nat) (h : s.stack = l ++ [b, a]) :
+    pop2 s = .ok (a, b) { s with stack := l } := by
+  unfold pop2
+  have h1 : popN 2 s = .ok [a, b] { s with stack := l } := by
+    unfold popN Stack.popMacro
+    have hl : ¬ s.stack.length < 2 := by rw [h]; simp
+    rw [if_neg hl, h, popNUnsafe_two]
+  rw [bind_ok _ _ _ _ _ h1]
+  rfl
+
+theorem pop2_underflow (s : IState) (h : s.stack.length < 2) : pop2 s = .halt .StackUnderflow [] s := by
+  unfold pop2
+  have h1 : popN 2 s = .halt .StackUnderflow [] s := by
+    unfold popN Stack.popMacro; rw [if_pos h]; rfl
+  rw [bind_halt _ _ _ _ _ _ h1]
+
+theorem jumpInner_eq (s2 : IState) (t : Nat) : (jumpInner t s2).toDone = jumpTo s2 t := by
+  unfold jumpInner jumpTo asUsizeOrFail
+  cases hx : Jump.asUsizeOrFail t with
+  | none =>
+    have : (haltWith (α := Nat) .InvalidJump) s2 = .halt .InvalidJump [] s2 := rfl
+    rw [bind_halt _ _ _ _ _ _ this]; rfl
+  | some x =>
+    have : (pure x : M Nat) s2 = .ok x s2 := rfl
+    rw [bind_ok _ _ _ _ _ this]
+    have hget : getS s2 = .ok s2 s2 := rfl
+    rw [bind_ok _ _ _ _ _ hget]
+    by_cases hv : Jump.isValid s2.jumpTable x
+    · simp [hv, modifyS, Exec.toDone]
+    · simp [hv, haltWith, Exec.toDone]
+
+theorem jumpI_eq (s : IState) (hwf : s.gas.remaining < U64) :
+    (jumpI s).toDone =
+      (if s.gas.remaining < GasCalc.MID then Done.halt .OutOfGas [] s
+       else match s.stack.reverse with
+         | t :: rest => jumpTo { charge s GasCalc.MID with stack := rest.reverse } t
+         | [] => .halt .StackUnderflow [] (charge s GasCalc.MID)) := by
+  unfold jumpI
+  by_cases hg : s.gas.remaining < GasCalc.MID
+  · rw [bind_halt _ _ _ _ _ _ (gasCharge_fail s _ hg), if_pos hg]; rfl
+  · rw [bind_ok _ _ _ _ _ (gasCharge_ok s _ hwf (by omega)), if_neg hg]
+    generalize hs2 : ({ s with gas := { s.gas with remaining := s.gas.remaining - GasCalc.MID } } : IState) = s2
+    have hst : s2.stack = s.stack := by rw [← hs2]
+    have hch : charge s GasCalc.MID = s2 := hs2
+    rw [hch]
+    rcases hrev : s.stack.reverse with _ | ⟨t, rest⟩
+    · have : s2.stack.length < 1 := by rw [hst, ← List.length_reverse, hrev]; decide
+      rw [bind_halt _ _ _ _ _ _ (pop1_underflow s2 this)]; rfl
+    · have hs : s2.stack = rest.reverse ++ [t] := by
+        rw [hst]; have := congrArg List.reverse hrev; simpa using this
+      rw [bind_ok _ _ _ _ _ (pop1_ok s2 _ t hs)]
+      exact jumpInner_eq _ t
+
+theorem jumpiI_eq (s : IState) (hwf : s.gas.remaining < U64) :
+    (jumpiI s).toDone =
+      (if s.gas.remaining < GasCalc.HIGH then Done.halt .OutOfGas [] s
+       else match s.stack.reverse with
+         | t :: c :: rest =>
+           if c ≠ 0 then jumpTo { charge s GasCalc.HIGH with stack := rest.reverse } t
+           else .next { charge s GasCalc.HIGH with stack := rest.reverse }
+         | _ => .halt .StackUnderflow [] (charge s GasCalc.HIGH)) := by
+  unfold jumpiI
+  by_cases hg : s.gas.remaining < GasCalc.HIGH
+  · rw [bind_halt _ _ _ _ _ _ (gasCharge_fail s _ hg), if_pos hg]; rfl
+  · rw [bind_ok _ _ _ _ _ (gasCharge_ok s _ hwf (by omega)), if_neg hg]
+    generalize hs2 : ({ s with gas := { s.gas with remaining := s.gas.remaining - GasCalc.HIGH } } : IState) = s2
+    have hst : s2.stack = s.stack := by rw [← hs2]
+    have hch : charge s GasCalc.HIGH = s2 := hs2
+    rw [hch]
+    rcases hrev : s.stack.reverse with _ | ⟨t, _ | ⟨c, rest⟩⟩
+    · have : s2.stack.length < 2 := by rw [hst, ← List.length_reverse, hrev]; decide
+      rw [bind_halt _ _ _ _ _ _ (pop2_underflow s2 this)]; rfl
+    · have : s2.stack.length < 2 := by rw [hst, ← List.length_reverse, hrev]; simp
+      rw [bind_halt _ _ _ _ _ _ (pop2_underflow s2 this)]; rfl
+    · have hs : s2.stack = rest.reverse ++ [c, t] := by
+        rw [hst]; have := congrArg List.reverse hrev; simpa using this
+      rw [bind_ok _ _ _ _ _ (pop2_ok s2 _ t c hs)]
+      by_cases hc : c = 0
+      · simp [hc, Exec.toDone]; rfl
+      · simp only [hc, ne_eq, not_false_eq_true, if_true]
+        exact jumpInner_eq _ t
+
+theorem step_jump (s : IState) (hcode : s.code[s.pc]? = some 0x56) (hwf : s.gas.remaining < U64) :
+    step s = .pure (jumpRule s) := by
+  unfold step
+  rw [hcode]
+  have hdec : decode 0x56 = .jump := rfl
+  simp only [hdec, execInstr, execPure]
+  show Outcome.pure (jumpI (adv s)).toDone = _
+  rw [jumpI_eq (adv s) hwf]
+  rfl
+
+theorem step_jumpi (s : IState) (hcode : s.code[s.pc]? = some 0x57) (hwf : s.gas.remaining < U64) :
+    step s = .pure (jumpiRule s) := by
+  unfold step
+  rw [hcode]
+  have hdec : decode 0x57 = .jumpi := rfl
+  simp only [hdec, execInstr, execPure]
+  show Outcome.pure (jumpiI (adv s)).toDone = _
+  rw [jumpiI_eq (adv s) hwf]
+  rfl
+
 end Revm.Proofs.EvmStep
